@@ -222,6 +222,19 @@ def constraint_violations(g, key, base, t):
             x[c["a"]] = x.get(c["a"], val(c["a"]))
             x.pop(c["b"], None)
             out.append(("constraint:%s_without_%s" % (c["a"], c["b"]), reorder(x)))
+            falsy = {"boolean": False, "integer": 0, "float": 0.0, "string": ""}.get(descs[c["a"]]["kind"])
+            # the same with nothing else wrong: whatever else hangs on the removed member goes with it, so that this constraint is the only one broken
+            partners = [c2["b"] if c2["a"] == c["b"] else c2["a"] for c2 in t["constraints"] if c2["k"] == "iff_present" and c["b"] in (c2["a"], c2["b"])] + \
+                       [c2["a"] for c2 in t["constraints"] if c2["k"] == "requires" and c2["b"] == c["b"] and c2["a"] != c["a"]]
+            z = copy.deepcopy(x)
+            for n2 in partners:
+                z.pop(n2, None)
+            if partners:
+                out.append(("constraint:%s_without_%s_and_its_partners" % (c["a"], c["b"]), reorder(copy.deepcopy(z))))
+            if falsy is not None and "fixed" not in descs[c["a"]] and (descs[c["a"]].get("min") is None or descs[c["a"]]["min"] <= 0):
+                y = copy.deepcopy(z)                 # the constraint is about presence: zero / false / the empty string is present
+                y[c["a"]] = falsy
+                out.append(("constraint:%s_falsy_without_%s" % (c["a"], c["b"]), reorder(y)))
             siblings = [c2["a"] for c2 in t["constraints"] if c2["k"] == "requires" and c2["b"] == c["b"] and c2["a"] != c["a"]]
             if siblings:        # ... and alone: without the other members that require the same thing (a check that walks them in order may stop at the first absent one)
                 y = copy.deepcopy(x)
@@ -553,6 +566,35 @@ def object_ref_lines():
                     line["family"] = in_family(e)
                     line["msg"] = message_of(e, line)[:160]
                 lines.append(line)
+    # library objects given as members of an observed-data container: built under their own rules (the other spec version; their own table of valid references), they are
+    # emitted as part of the container and must be valid there
+    for v in VERSIONS:
+        m, o = (stix2.v20, stix2.v21) if v == "2.0" else (stix2.v21, stix2.v20)
+        members = []
+        try:
+            members.append(("file_of_other_version", {"0": o.File(name="f")}))
+            members.append(("file_of_other_version_beside_a_dictionary", {"0": {"type": "file", "name": "g"}, "1": o.File(name="f")}))
+        except Exception:  # noqa
+            pass
+        if v == "2.0":
+            try:
+                members.append(("directory_with_reference_valid_elsewhere", {"0": m.Directory(path="/", contains_refs=["5"], _valid_refs={"5": "file"})}))
+                members.append(("file_with_reference_to_key_of_other_type", {"0": m.File(name="f", parent_directory_ref="1", _valid_refs={"1": "directory"}), "1": {"type": "file", "name": "g"}}))
+            except Exception:  # noqa
+                pass
+        for how, objs in members:
+            line = {"kind": "emit", "v": v, "key": "objects:observed-data", "ctx": "object_valued_container_member:" + how, "entry": "constructor", "strict": True, "ok": False, "family": True,
+                    "exc": "none", "doc": {"key": "objects:observed-data", "props": []}, "input": {"generated": "object_valued_container_member:" + how}}
+            try:
+                out = out_json(m.ObservedData(first_observed="2020-01-01T00:00:00Z", last_observed="2020-01-01T00:00:00Z", number_observed=1, objects=objs))
+                line["ok"] = True
+                line["doc"] = lex.doc(out, v, "objects:observed-data")
+                line["output"] = out
+            except Exception as e:  # noqa
+                line["exc"] = type(e).__name__
+                line["family"] = in_family(e)
+                line["msg"] = message_of(e, line)[:160]
+            lines.append(line)
     return lines
 
 
@@ -1061,6 +1103,10 @@ def injections(g, key, base, rng):
     x = copy.deepcopy(base)
     x["x_custom_top"] = "v"
     out.append(("top_level_custom_property", x))
+    for nm, val in (("null", None), ("empty_list", []), ("empty_string", ""), ("zero", 0), ("false", False), ("empty_object", {})):
+        x = copy.deepcopy(base)              # values the library may drop or keep: the flag follows what is emitted
+        x["x_custom_top"] = val
+        out.append(("top_level_custom_property_valued_" + nm, x))
     for d in t["properties"]:
         n = d["name"]
         if n not in base:
@@ -1109,6 +1155,15 @@ def injections(g, key, base, rng):
             x = copy.deepcopy(base)
             x[n] = val if d["kind"] == "reference" else [val]
             out.append(("reference_to_unregistered_type:%s:%s" % ("whitelist-generic" if rd["auth"] == "whitelist" and rd["generics"] else rd["auth"], n), x))
+            if rd["auth"] == "whitelist":
+                # a registered type that is in none of the allowed categories / not among the allowed types
+                for other in ("marking-definition", "relationship", "bundle", "identity", "file" if g.v == "2.1" else "observed-data"):
+                    if other not in rd["specifics"] and not (other in ("relationship",) and "SRO" in rd["generics"]) and not (other in ("identity", "observed-data") and "SDO" in rd["generics"]) \
+                            and not (other == "file" and "SCO" in rd["generics"]):
+                        x = copy.deepcopy(base)
+                        val = other + "--11111111-1111-4111-8111-111111111111"
+                        x[n] = val if d["kind"] == "reference" else [val]
+                        out.append(("reference_to_registered_type_not_allowed_here:%s:%s" % (other, n), x))
             if g.v == "2.0":       # a type that exists in 2.1 only is custom for 2.0
                 val = "location--11111111-1111-4111-8111-111111111111"
                 x = copy.deepcopy(base)
@@ -1189,7 +1244,31 @@ def custom_lines(chk, quick):
                 base_tl = stix2.v21.Identity(name="n", rank=1, extensions={A: dict(tl)})
             except Exception:  # noqa  (refusing this valid object is C03's business; the derived objects below then report their own refusal)
                 base_tl = None
-            for place, build in (("extension_instance_given", lambda: stix2.v21.Identity(name="n", rank=2, extensions={A: _CUSTOM["a"]()}, allow_custom=True)),
+            # ... and a registered extension given as an instance that itself carries custom content: the host is as custom as its extension
+            custom_ntfs = lambda: stix2.v21.NTFSExt(sid="s", x_note=1, allow_custom=True)  # noqa
+            file_custom_ext = None
+            try:
+                file_custom_ext = stix2.v21.File(name="f", extensions={"ntfs-ext": custom_ntfs()}, allow_custom=True)
+            except Exception:  # noqa
+                pass
+            for place, build, mode in (("custom_content_inside_extension_instance", lambda: stix2.v21.File(name="f", extensions={"ntfs-ext": custom_ntfs()}), "strict"),
+                                       ("custom_content_inside_extension_instance:bundle_member", lambda: stix2.v21.Bundle(file_custom_ext), "strict"),
+                                       ("custom_content_inside_extension_instance:parse_of_object", lambda: stix2.parse(file_custom_ext, allow_custom=False), "strict"),
+                                       ("custom_content_inside_extension_instance:container_member",
+                                        lambda: stix2.v21.ObservedData(first_observed="2020-01-01T00:00:00Z", last_observed="2020-01-01T00:00:00Z", number_observed=1, objects={"0": file_custom_ext}), "strict")):
+                line = {"kind": "custom", "v": v, "key": "observables:file", "place": place, "mode": mode, "refused": False, "has_custom": False, "strict_reparse_refused": False,
+                        "exc": "none", "input": {"generated": place}}
+                try:
+                    build()
+                except Exception as e:  # noqa
+                    line["refused"] = True
+                    line["exc"] = type(e).__name__
+                lines.append(line)
+            for place, build in (("custom_content_inside_extension_instance", lambda: stix2.v21.File(name="f", extensions={"ntfs-ext": custom_ntfs()}, allow_custom=True)),
+                                 ("custom_content_inside_extension_instance:deepcopy", lambda: _copy.deepcopy(file_custom_ext)),
+                                 ("custom_content_inside_extension_instance:parse_of_object", lambda: stix2.parse(file_custom_ext, allow_custom=True)),
+                                 ("custom_content_inside_extension_instance:bundle_member", lambda: stix2.v21.Bundle(file_custom_ext, allow_custom=True)),
+                                 ("extension_instance_given", lambda: stix2.v21.Identity(name="n", rank=2, extensions={A: _CUSTOM["a"]()}, allow_custom=True)),
                                  ("new_version_of_object_with_toplevel_extension", lambda: stix2.versioning.new_version(base_tl, name="m", allow_custom=True)),
                                  ("deepcopy_of_object_with_toplevel_extension", lambda: _copy.deepcopy(base_tl)),
                                  ("add_markings_on_object_with_toplevel_extension", lambda: base_tl.add_markings(stix2.v21.TLP_GREEN)),
